@@ -43,7 +43,7 @@ def run(run):
     run.assumptions += ["np.asarray of a tuple of tuples allocates; of an ndarray returns the same object",
                         "np.linspace(a, b, n) includes both a and b iff n >= 2"]
     run.undecided_clauses += ["every tile with a pixel centre inside the box/footprint/chunk is accepted (spherical geometry over floats)"]
-    for r, n in (("C07.R1", 2), ("C07.R2", 2), ("C07.R3", 2), ("C07.R4", 5), ("C07.R5", 6), ("C07.R6", 6), ("C07.R7", 1), ("C07.R8", 4)):
+    for r, n in (("C07.R1", 2), ("C07.R2", 2), ("C07.R3", 2), ("C07.R4", 5), ("C07.R5", 1), ("C07.R6", 2), ("C07.R7", 1), ("C07.R8", 4)):
         run.floor(r, n)
     _r1_purity(run)
     _r2_pruning(run)
